@@ -78,6 +78,7 @@ func c14(c *Ctx) {
 	r.Floor("R2.declared-limits", 13)
 	r.Floor("R3.ztyp-field-lists", 25)
 	r.Floor("R4.fork-tables", 4)
+	r.Floor("R5.path-prefix", 3)
 
 	debug := os.Getenv("VERIF_C14_DEBUG") != ""
 	tys := fastsszTypes(p)
@@ -305,6 +306,7 @@ func c14(c *Ctx) {
 	}
 
 	c14ztyp(c)
+	c14Nibbles(c)
 }
 
 // baseConst: the constant a SizeSSZ accumulator starts from (phi initial / first store), -1 if none.
